@@ -208,6 +208,8 @@ def _sum_term(sev, env, ps, f, n, origin):
     live.assume(u1)
     live.assume(u2)
     live.assume(nonneg)
+    # the same lemma for the prefix the unfolding introduces
+    live.assume(z3.Implies(forall([i], z3.Implies(z3.And(0 <= i, i < n - 1), z3.Select(f, i) >= zero)), ps(f, n - 1) >= zero))
     reg = live.psums.setdefault(origin, [])
     key = (f.get_id(), n.get_id())
     if all(k != key for (k, _, _) in reg):
@@ -223,6 +225,9 @@ def _sum_term(sev, env, ps, f, n, origin):
             live.assume(z3.Implies(z3.And(0 <= lo, lo <= hi, hyp2), ps(f, hi) - ps(f2, hi) == ps(f, lo) - ps(f2, lo)))
             hyp3 = forall([i], z3.Implies(z3.And(hi <= i, i < lo), z3.Select(f, i) == z3.Select(f2, i)))
             live.assume(z3.Implies(z3.And(0 <= hi, hi <= lo, hyp3), ps(f, lo) - ps(f2, lo) == ps(f, hi) - ps(f2, hi)))
+            # one sequence is the other one reversed (slices.Reverse): same sum
+            hypr = forall([i], z3.Implies(z3.And(0 <= i, i < n), z3.Select(f, i) == z3.Select(f2, n - 1 - i)))
+            live.assume(z3.Implies(z3.And(n == n2, hypr), ps(f, n) == ps(f2, n)))
             # the two sequences differ at one recently used index k only: the sums differ by f[k] - f2[k]
             for kk in getattr(live, 'recent_idx', ()):
                 hyp4 = forall([i], z3.Implies(z3.And(0 <= i, i < n, i != kk), z3.Select(f, i) == z3.Select(f2, i)))
